@@ -347,6 +347,7 @@ Fixpoint run_hist (env : list val) (es : list exp) : list val :=
   | e :: t => run_hist (env ++ [eval env e]) t
   end.
 
+Definition check_model (e : exp) (impl : obs) : nat := cmp_model (observe (eval [] e)) impl.
 Definition check1 (e : exp) (impl : obs) : nat :=
   (cmp_model (observe (eval [] e)) impl + cmp_spec (observe (deval [] e)) impl)%nat.
 
